@@ -3,6 +3,8 @@ package families
 import (
 	"fmt"
 
+	schedv2alpha2 "github.com/NVIDIA/KAI-scheduler/pkg/apis/scheduling/v2alpha2"
+
 	"verif/mc/clustermc"
 	"verif/mc/oracle"
 	"verif/mc/schedrun"
@@ -85,8 +87,13 @@ func orderScenarios(tier string) []clustermc.Scenario {
 							c /= len(cl.pcs)
 						}
 						for _, comp := range competitors {
-							for compFirst := 0; compFirst < 2; compFirst++ {
-								if compFirst == 1 && len(comp.wls) == 0 {
+							// compFirst 2: no competitor twin with the ages running against the name order
+							// (objects are loaded in name order, so this is "the younger is loaded first")
+							for compFirst := 0; compFirst < 3; compFirst++ {
+								if compFirst >= 1 && len(comp.wls) == 0 && compFirst != 2 {
+									continue
+								}
+								if compFirst == 2 && len(comp.wls) != 0 {
 									continue
 								}
 								b := world.NewBuilder()
@@ -108,6 +115,9 @@ func orderScenarios(tier string) []clustermc.Scenario {
 								for i, pc := range seq {
 									wl := cl.mk(pc)
 									wl.Name = fmt.Sprintf("c%d", i)
+									if compFirst == 2 {
+										wl.CreatedRank = 1000 + 100*(n-i)
+									}
 									b.Workload(wl)
 								}
 								if compFirst == 0 {
@@ -152,8 +162,95 @@ func orderScenarios(tier string) []clustermc.Scenario {
 				b.Workload(world.WL{Name: fmt.Sprintf("c%d", i), Queue: "qa", PC: pc, Pods: pods(1, shG1, "", "")})
 			}
 			out = append(out, clustermc.Scenario{Name: fmt.Sprintf("deep-queue:1n-6gpu/flat:g1-pre%v", seq), World: b.Done(), Configs: deepCfgs})
+			// the same with ages running against the name order (objects are loaded in name order)
+			b = world.NewBuilder()
+			b.Node(world.NodeOpt{Name: "n1", CPU: "16", Mem: "32Gi", GPUs: 6, GPUMemMiB: 40000})
+			b.GQueue("qa", "", 1, -1, 1).GQueue("qb", "", 1, -1, 1).GQueue("qc", "", 1, -1, 1)
+			for i, pc := range seq {
+				b.Workload(world.WL{Name: fmt.Sprintf("c%d", i), Queue: "qa", PC: pc, CreatedRank: 1000 + 100*(n-i), Pods: pods(1, shG1, "", "")})
+			}
+			out = append(out, clustermc.Scenario{Name: fmt.Sprintf("deep-queue:1n-6gpu/flat:g1-pre%v/ages-reversed", seq), World: b.Done(), Configs: deepCfgs})
 		}
 	}
+	out = append(out, elasticNeighbourScenarios(tier)...)
+	return out
+}
+
+// elasticNeighbourScenarios: an identical fully pending pair (older / younger) of queue qa next to
+// RUNNING elastic jobs of the same queue and priority that still have pending pods and therefore sit in
+// the same per-queue heap: one exactly at its minimum, one with two pod sets of which one is above and
+// the other below its minimum (or, as variant, simply above its minimum). One free GPU. Every order of
+// the four objects' names (= every base order of the maps the jobs are loaded from, further rotated by
+// the map seeds) x every assignment of ages.
+func elasticNeighbourScenarios(tier string) []clustermc.Scenario {
+	var out []clustermc.Scenario
+	perms := permutations(4)
+	seeds := 2
+	if tier == "thorough" {
+		seeds = 4
+	}
+	var cfgs []schedrun.Config
+	for s := 0; s < seeds; s++ {
+		cfgs = append(cfgs, schedrun.Config{MapSeed: uint64(s)})
+	}
+	for _, kind := range []string{"sets-above+below", "above"} {
+		for oi, order := range perms {
+			for ai, ages := range perms {
+				if tier != "thorough" && ages[2] > ages[3] { // quick: pair ages in one direction only (names are symmetric)
+					continue
+				}
+				b := world.NewBuilder()
+				b.Node(world.NodeOpt{Name: "n1", CPU: "16", Mem: "32Gi", GPUs: 4, GPUMemMiB: 40000})
+				b.GQueue("qa", "", 4, -1, 1).GQueue("qb", "", 1, -1, 1)
+				mixed := world.WL{Name: "x-mixed", Queue: "qa", MinMember: 2,
+					SubGroups: []schedv2alpha2.SubGroup{{Name: "workers", MinMember: 1}, {Name: "ps", MinMember: 1}},
+					Pods:      withSubGroups(append(pods(2, shG1, world.StRunning, "n1"), pods(1, shG2, "", "")...), "workers", "workers", "ps")}
+				if kind == "above" {
+					mixed = world.WL{Name: "x-mixed", Queue: "qa", MinMember: 1, Pods: append(pods(2, shG1, world.StRunning, "n1"), pods(1, shG2, "", "")...)}
+				}
+				jobs := []world.WL{
+					mixed,
+					{Name: "x-atmin", Queue: "qa", MinMember: 1, Pods: append(pods(1, shG1, world.StRunning, "n1"), pods(1, shG1, "", "")...)},
+					{Name: "c0", Queue: "qa", Pods: pods(1, shG1, "", "")},
+					{Name: "c1", Queue: "qa", Pods: pods(1, shG1, "", "")},
+				}
+				// objects reach the scheduler's maps in name order: the names carry the permutation
+				for pos, ji := range order {
+					wl := jobs[ji]
+					wl.Tag = wl.Name
+					wl.Name = fmt.Sprintf("j%d-%s", pos, wl.Name)
+					wl.CreatedRank = 1000 + 100*ages[ji]
+					b.Workload(wl)
+				}
+				out = append(out, clustermc.Scenario{Name: fmt.Sprintf("elastic-neighbours:1n-4gpu/%s/order%d/ages%d", kind, oi, ai), World: b.Done(), Configs: cfgs})
+			}
+		}
+	}
+	return out
+}
+
+func withSubGroups(ps []world.PodSpec, names ...string) []world.PodSpec {
+	for i := range ps {
+		ps[i].SubGroup = names[i]
+	}
+	return ps
+}
+
+func permutations(n int) [][]int {
+	var out [][]int
+	var rec func(cur []int, used int)
+	rec = func(cur []int, used int) {
+		if len(cur) == n {
+			out = append(out, append([]int{}, cur...))
+			return
+		}
+		for i := 0; i < n; i++ {
+			if used&(1<<i) == 0 {
+				rec(append(cur, i), used|1<<i)
+			}
+		}
+	}
+	rec(nil, 0)
 	return out
 }
 
